@@ -297,7 +297,13 @@ func (w *world) setLabels(cn *conn) {
 // a proxy configuration under which a connection was made, and none has counted more bytes
 // than the peers wrote on the connections made under that configuration.
 func (w *world) labelOracle(i int, fail func(int, string, string, string, string, string, string) *report.Failure, got string) *report.Failure {
+	recv, sent := map[string]int64{}, map[string]int64{}
+	noLinkGoroutines := false
 	for _, f := range strings.Fields(got) {
+		if strings.HasPrefix(f, "G=") {
+			g := strings.Split(f[2:], "/")
+			noLinkGoroutines = len(g) >= 3 && g[0] == "0" && g[1] == "0" && g[2] == "0"
+		}
 		if !(strings.HasPrefix(f, "R[") || strings.HasPrefix(f, "S[")) {
 			continue
 		}
@@ -306,6 +312,11 @@ func (w *world) labelOracle(i int, fail func(int, string, string, string, string
 			continue
 		}
 		n, _ := strconv.ParseInt(v, 10, 64)
+		if f[0] == 'R' {
+			recv[k] = n
+		} else {
+			sent[k] = n
+		}
 		max, known := w.pushed[k]
 		if !known {
 			return fail(i, "oracle", "C20", "a series per (direction, proxy, listener, upstream) in use", f,
@@ -314,6 +325,16 @@ func (w *world) labelOracle(i int, fail func(int, string, string, string, string
 		if n > max {
 			return fail(i, "oracle", "C20", fmt.Sprintf("at most %d", max), f,
 				fmt.Sprintf("a byte counter shows %d bytes, but only %d bytes were sent on connections made under its labels", n, max), "e6:C20:overcount")
+		}
+	}
+	// once every link goroutine has ended both counters of a series are final: what was written
+	// to the receiving peers had been read from the sending peers first (no toxic creates bytes)
+	if noLinkGoroutines {
+		for k, sn := range sent {
+			if sn > recv[k] {
+				return fail(i, "oracle", "C20", fmt.Sprintf("received >= sent = %d", sn), fmt.Sprintf("R[%s]=%d S[%s]=%d", k, recv[k], k, sn),
+					fmt.Sprintf("with no link goroutine left, the sent-bytes counter of a series shows %d bytes but its received-bytes counter only %d: bytes that were relayed were never counted as received", sn, recv[k]), "e6:C20:sent-exceeds-received")
+			}
 		}
 	}
 	return nil
@@ -518,19 +539,19 @@ func fdCount() int {
 }
 
 type world struct {
-	e        *Engine
-	srv      *toxiproxy.ApiServer
-	h        http.Handler
-	reg      *prometheus.Registry
-	ups      map[string]*upServer // symbolic name -> server (nil listener = refusing)
-	upAddr   map[string]string
-	proxies  map[string]string // name -> listen address
-	porder   []string
-	conns    map[string]*conn
-	corder   []string
-	lastConn string
-	pushed   map[string]int64 // label set -> bytes the harness's peers wrote on connections started under it
-	base     [4]int
+	e            *Engine
+	srv          *toxiproxy.ApiServer
+	h            http.Handler
+	reg          *prometheus.Registry
+	ups          map[string]*upServer // symbolic name -> server (nil listener = refusing)
+	upAddr       map[string]string
+	proxies      map[string]string // name -> listen address
+	porder       []string
+	conns        map[string]*conn
+	corder       []string
+	lastConn     string
+	pushed       map[string]int64 // label set -> bytes the harness's peers wrote on connections started under it
+	base         [4]int
 	stopReturned time.Time
 }
 
